@@ -54,9 +54,9 @@ def run(ctx):
         if ctx.tier == "quick":
             k = (ctx.seed * 5) % max(1, len(small))
             rot = small[k:] + small[:k]
-            tokmut(ctx, rot[:9], 1, cases, "s")
+            tokmut(ctx, rot[:int(os.environ.get("VERIF_C07_FILES", "6"))], 1, cases, "s")
             tokmut(ctx, [tiny[ctx.seed % len(tiny)]], 2, cases, "p")
-            ctx.tlc("gocore", "GoCore", "GoCore_c06q_mut1.cfg", cases_path=cases, timeout_s=1200, workers=4)
+            ctx.tlc("gocore", "GoCore", "GoCore_c07q_mut.cfg", cases_path=cases, timeout_s=1200, workers=4)
         else:
             tokmut(ctx, [f for f in corpus if 4 <= f["ntok"] <= 160], 1, cases, "s")
             tokmut(ctx, tiny, 2, cases, "p")
@@ -64,7 +64,7 @@ def run(ctx):
     env = {}
     if os.environ.get("VERIF_CORRUPT_TRACE"):
         env["VERIF_CORRUPT_TRACE"] = "1"
-    res = ctx.run_harness(h, ["c07"], cases, timeout_s=3000, env=env)
+    res = ctx.run_harness(h, ["c07"], cases, timeout_s=6000, env=env)
     ctx.tally(res, cases_path=cases)
     validate_traces(ctx, "c07", os.path.join(ctx.scratch, "trace.ndjson"), os.path.join(ctx.scratch, "rejected.json"))
     ctx.exhaustive = False
